@@ -1,5 +1,5 @@
 (* C02 -- serve(): body bytes are exactly the entity bytes the headers denote. *)
-From HS Require Import Lib.Base Lib.Dec Model.Body Model.Serve Proofs.BodyP Proofs.BodyRun Proofs.ServeP Proofs.ServeProps Proofs.EchoP.
+From HS Require Import Lib.Base Lib.Dec Model.Body Model.Serve Proofs.BodyP Proofs.BodyRun Proofs.ServeP Proofs.ServeProps Proofs.EchoP Spec.RangeGrammar Spec.Validators Spec.Multipart Spec.Response Model.Range Model.Etag Lib.Bytes Proofs.RangeP Proofs.DecisionP Proofs.MultipartP Proofs.EndToEnd.
 
 (* A 200 to GET reads the entity's complete byte range, once (get_range (0, L) is the only source
    of body bytes). *)
@@ -34,8 +34,36 @@ Theorem c02_other_statuses_read_nothing : forall fmt_date parse_date now ent req
   ~ In (status r) [200; 206] -> snd (body_init streams (rplan r)) = [] /\ exists o, rplan r = PlOnce o.
 Proof. exact other_statuses_read_nothing. Qed.
 
+(* End to end (a composition of C02-C06's theorems, Proofs/EndToEnd.v): for every GET whose conditional
+   headers are well-formed and whose Range header is absent, grammatical (any number of specs, OWS,
+   64-bit numbers) or ignored, every entity length < 2^64 and every entity whose streams honour the
+   contract, `serve` answers with the status the AST-level specification Spec/Response.v names, reads
+   the entity exactly at the specified ranges, and its body -- however chunked, however often polled --
+   never errs, is at every moment a prefix of the specified bytes (the complete entity, the range, or
+   the multipart wire format) and equals them at the clean end. *)
+Theorem c02_serve_refines_spec : forall fmt_date parse_date content now (et : option tag) ent req im inm ims ius rast streams,
+  e_len ent < U64 -> e_etag ent = option_map render_tag et -> r_meth req = GET ->
+  wf_conds parse_date req im inm ims ius -> range_rel (e_len ent) (r_range req) rast ->
+  let L := e_len ent in
+  let in_force := match r_if_range req with
+                  | None => true
+                  | Some ifr => match e_etag ent with Some e => beq_bytes ifr e && starts_with DQ e | None => false end
+                  end in
+  let eh := match r_if_range req with Some _ => [] | None => e_hdrs ent end in
+  let o := spec_outcome content et (option_map (fun m => m / NS) (e_lm ent)) im inm ims ius
+                        (if in_force then rast else None) L eh in
+  exists r, serve_model fmt_date parse_date now ent req = Ok r /\ status r = spec_status o /\
+    snd (body_init streams (rplan r)) = (match o with OMulti _ => [] | _ => spec_reads L o end) /\
+    (honest_for content streams (spec_reads L o) ->
+     forall n rs_ bf, run n streams (fst (body_init streams (rplan r))) = Ok (rs_, bf) ->
+       existsb is_perr rs_ = false /\
+       forall body, spec_body content L eh o = Some body ->
+         (exists rest, data_bytes rs_ ++ rest = body) /\ (existsb is_pend rs_ = true -> data_bytes rs_ = body)).
+Proof. exact serve_refines_spec. Qed.
+
 Print Assumptions c02_full.
 Print Assumptions c02_single_range.
 Print Assumptions c02_bytes_pass_through.
 Print Assumptions c02_clean_end_whole_range.
 Print Assumptions c02_other_statuses_read_nothing.
+Print Assumptions c02_serve_refines_spec.
